@@ -281,10 +281,12 @@ def r4_class_parser_agreement(run):
     n = 0
     for mi in m.modules.values():
         for c in all_calls_named(mi.tree, "_parse_request"):
-            if len(c.args) < 3:
+            a_cls = arg_of(c, 1, "request_cls")
+            a_svc = arg_of(c, 2, "service")
+            if a_cls is None or a_svc is None:
                 continue
-            cls = unparse(c.args[1]).split(".")[-1]
-            svc = c.args[2].value if isinstance(c.args[2], ast.Constant) else None
+            cls = unparse(a_cls).split(".")[-1]
+            svc = a_svc.value if isinstance(a_svc, ast.Constant) else None
             n += 1
             ok = svc in kr and kr[svc] == cls
             run.check(ok, "R4", "%s::_parse_request(%s, %r)" % (mi.name, cls, svc),
